@@ -320,8 +320,10 @@ def printArgVal : Nat → POpt → List Cell → Option Cell → PSt → Res (PS
           let flt ← secfracs2float secfracs
           let num := fmtF false prec (promote flt)
           -- snip part before separator
-          let fracTxt := num.dropWhile (· ≠ 46)
-          if fracTxt.isEmpty then throw .undef    -- strchr returned NULL
+          let fracTxt0 := num.dropWhile (· ≠ 46)
+          if fracTxt0.isEmpty then throw .undef    -- strchr returned NULL
+          -- fix C10-17: a fraction that rounds up to "1.00" is printed as the largest fraction ".99"
+          let fracTxt := if hd num ≠ 48 then 46 :: List.replicate (fracTxt0.length - 1) 57 else fracTxt0
           let wrt := date.length + num.length - (num.length - fracTxt.length)
           if opt.lossless then
             let hex := fmtA (promote flt) ++ lit "s)"
